@@ -193,6 +193,15 @@ Proof.
   - exists b. repeat split; lra.
 Qed.
 
+Lemma sq_le_helper : forall theta D M,
+  0 <= theta -> theta <= 1 -> 0 <= D -> theta * D <= M -> theta * theta * D <= M.
+Proof.
+  intros theta D M H0 H1 HD H.
+  assert (K : 0 <= theta * D) by nra.
+  assert (K2 : theta * (theta * D) <= 1 * (theta * D)) by (apply Qmult_le_compat_r; assumption).
+  lra.
+Qed.
+
 Lemma summary_small : forall c D,
   0 < qmax (chh c) (chw c) ->
   exists th, 0 < th /\ forall theta, 0 <= theta -> theta < th -> summary_ok c theta D = false.
@@ -209,11 +218,12 @@ Proof.
         assert (H2 : m * m / D < 1).
         { apply Qlt_shift_div_r; [exact HD | lra]. }
         assert (H3 : Qltb (m * m) (theta * theta * D) = false).
-        { apply Qltb_false. nra. }
+        { apply Qltb_false. apply sq_le_helper; lra. }
         rewrite H3. reflexivity.
     + exists 1. split; [lra|]. intros theta H0 Hth.
       assert (H3 : Qltb (m * m) (theta * theta * D) = false).
-      { apply Qltb_false. nra. }
+      { apply Qltb_false. apply sq_le_helper; try lra.
+        assert (K : theta * D <= 1 * D) by (apply Qmult_le_compat_r; lra). lra. }
       rewrite H3. reflexivity.
   - exists 1. split; [lra|]. intros theta H0 Hth.
     assert (H3 : Qltb 0 D = false) by (apply Qltb_false; exact HD).
